@@ -26,6 +26,19 @@ class QN:
         return hash(self.s)
 
 
+class WS:
+    """a strip-space / preserve-space declaration (XalanSpaceNodeTester): a label and a match score; deeper levels get the higher scores, so that a merge by score shows"""
+    identity = True
+
+    def __init__(self, label, score):
+        self.label, self.score = label, score
+
+    def __str__(self):
+        return self.label
+
+    __repr__ = __str__
+
+
 class KWorld:
     construct_objects = False
 
@@ -79,6 +92,12 @@ class KWorld:
                     return tgt.fields['name']
                 if n in ('getMatchPattern', 'getUse'):
                     return tgt.fields[n]
+            if isinstance(tgt, WS):
+                if n == 'getMatchScore':
+                    return tgt.score
+                if n == 'getType':
+                    return 0
+                raise Unsupported('white-space declaration method ' + n)
             if isinstance(tgt, QN) and n == 'equals':
                 return int(tgt == m.ev(c['args'][0]))
         if k == 'OpCall' and c.get('op') == '==' and len(c['args']) == 2:
@@ -88,17 +107,15 @@ class KWorld:
         return NotImplemented
 
 
-def run_rule(res, facts, tier):
-    r = res.rule('C01-R17', 'all xsl:key declarations of a name apply together, whatever their import precedence (XSLT 1.0 12.2): Stylesheet::postConstruction interpreted on an importing '
-                 'stylesheet with two or three imports and the same key name declared at several levels - afterwards the stylesheet holds every key declaration (and every '
-                 'strip-space / preserve-space declaration) of every level exactly once', floor=12)
+def outcomes(facts):
+    """interpret Stylesheet::postConstruction on the shapes; yields (site, fn, outcome) with outcome = ('fault', text) or ('done', got_keys, all_keys, got_ws, all_ws)"""
     cands = [a for a in facts.asts('Stylesheet::postConstruction', must=False) if a.get('body') is not None and len(a['params']) == 1]
     if len(cands) != 1:
         raise AnalysisBroken('Stylesheet::postConstruction(context): %d bodies' % len(cands))
     fn = cands[0]
     kfields = {f['n'] for f in (facts.K.get(NS + 'Stylesheet') or {}).get('fields', [])}
-    if 'm_keyDeclarations' not in kfields or 'm_imports' not in kfields:
-        raise AnalysisBroken('Stylesheet has no m_keyDeclarations / m_imports')
+    if 'm_keyDeclarations' not in kfields or 'm_imports' not in kfields or 'm_whitespaceElements' not in kfields:
+        raise AnalysisBroken('Stylesheet has no m_keyDeclarations / m_whitespaceElements / m_imports')
     w = KWorld(facts)
     # names per level: own, import 1 (highest precedence), import 2, import 3
     SHAPES = [(['k'], ['k'], []), (['k'], [], ['k']), ([], ['k'], ['k']), (['k', 'j'], ['k'], ['j', 'k']), ([], ['k', 'k'], ['k']), (['j'], ['k'], ['k'], ['k', 'j']), (['k'], ['k'], ['k'], ['k']),
@@ -111,7 +128,7 @@ def run_rule(res, facts, tier):
                 return [Obj('KeyDeclaration', {'name': QN(nm), 'getMatchPattern': 'match-%d-%d' % (lvl, i), 'getUse': 'use-%d-%d' % (lvl, i), 'id': next(serial)}) for i, nm in enumerate(names)]
 
             def sheet(names, lvl, imports):
-                o = Obj(NS + 'Stylesheet', {'m_keyDeclarations': Vec(decls(names, lvl)), 'm_whitespaceElements': Vec(['ws-%d-%d' % (lvl, i) for i in range(len(names))]),
+                o = Obj(NS + 'Stylesheet', {'m_keyDeclarations': Vec(decls(names, lvl)), 'm_whitespaceElements': Vec([WS('ws-%d-%d' % (lvl, i), 1 + (lvl * 2 + i) % 3) for i in range(len(names))]),
                                             'm_imports': Vec(imports), 'm_importsSize': 0, 'm_firstTemplate': 0, 'm_topLevelVariables': Vec([]), 'm_namespacesHandler': 'NSH'})
                 for f in kfields:
                     o.fields.setdefault(f, 0)
@@ -122,29 +139,39 @@ def run_rule(res, facts, tier):
             top = sheet(shape[0], 0, imports)
             all_keys = list(top.fields['m_keyDeclarations'].items) + [d for s in imports for d in s.fields['m_keyDeclarations'].items]
             all_ws = list(top.fields['m_whitespaceElements'].items) + [d for s in imports for d in s.fields['m_whitespaceElements'].items]
-            site = 'keys declared as %s in the stylesheet and %s in its imports%s' % (shape[0] or 'none', ' / '.join(str(x or 'none') for x in shape[1:]), ' (imports in the other order)' if own_first else '')
+            site = 'declared as %s in the stylesheet and %s in its imports%s' % (shape[0] or 'none', ' / '.join(str(x or 'none') for x in shape[1:]), ' (imports in the other order)' if own_first else '')
             w.calls = 0
             try:
                 m = OMachine(w, {}, top)
                 m.fuel = 40000
                 m.run_body(fn, ['CCTX'], top)
             except Fault as f:
-                r.violation('key declarations of the imports: fault', '%s: %s' % (site, f), common.file_line(fn)); continue
+                yield site, fn, ('fault', str(f)); continue
             except Unsupported as u:
                 raise AnalysisBroken('Stylesheet::postConstruction outside the interpreted subset (%s): %s' % (site, u))
-            got = top.fields['m_keyDeclarations'].items
-            gotws = top.fields['m_whitespaceElements'].items
-            ids = sorted(d.fields['id'] for d in got if isinstance(d, Obj))
-            want = sorted(d.fields['id'] for d in all_keys)
-            if ids != want:
-                lost = [d for d in all_keys if d.fields['id'] not in ids]
-                dup = sorted({i for i in ids if ids.count(i) > 1})
-                r.violation('key declarations of the imports: %s' % ('a declaration is dropped' if lost else 'a declaration is entered twice'),
-                            '%s: afterwards the stylesheet holds %d of the %d declarations%s%s: key() misses every node only that declaration matches (12.2: all declarations of a name apply)' %
-                            (site, len(set(ids)), len(want), '; lost: ' + ', '.join('%s (%s)' % (d.fields['name'].s, d.fields['getMatchPattern']) for d in lost[:3]) if lost else '',
-                             '; twice: %s' % dup if dup else ''), common.file_line(fn))
-            elif sorted(map(str, gotws)) != sorted(map(str, all_ws)):
-                r.violation('white-space declarations of the imports', '%s: afterwards the stylesheet holds %s, all levels together declare %s' % (site, gotws, all_ws), common.file_line(fn))
-            else:
-                r.ok(site, '%d declarations' % len(ids))
+            yield site, fn, ('done', list(top.fields['m_keyDeclarations'].items), all_keys, list(top.fields['m_whitespaceElements'].items), all_ws)
+
+
+def run_rule(res, facts, tier):
+    r = res.rule('C01-R17', 'all xsl:key declarations of a name apply together, whatever their import precedence (XSLT 1.0 12.2): Stylesheet::postConstruction interpreted on an importing '
+                 'stylesheet with two or three imports and the same key name declared at several levels - afterwards the stylesheet holds every key declaration (and every '
+                 'strip-space / preserve-space declaration) of every level exactly once', floor=12)
+    for site, fn, out in outcomes(facts):
+        site = 'keys ' + site
+        if out[0] == 'fault':
+            r.violation('key declarations of the imports: fault', '%s: %s' % (site, out[1]), common.file_line(fn)); continue
+        _, got, all_keys, gotws, all_ws = out
+        ids = sorted(d.fields['id'] for d in got if isinstance(d, Obj))
+        want = sorted(d.fields['id'] for d in all_keys)
+        if ids != want:
+            lost = [d for d in all_keys if d.fields['id'] not in ids]
+            dup = sorted({i for i in ids if ids.count(i) > 1})
+            r.violation('key declarations of the imports: %s' % ('a declaration is dropped' if lost else 'a declaration is entered twice'),
+                        '%s: afterwards the stylesheet holds %d of the %d declarations%s%s: key() misses every node only that declaration matches (12.2: all declarations of a name apply)' %
+                        (site, len(set(ids)), len(want), '; lost: ' + ', '.join('%s (%s)' % (d.fields['name'].s, d.fields['getMatchPattern']) for d in lost[:3]) if lost else '',
+                         '; twice: %s' % dup if dup else ''), common.file_line(fn))
+        elif sorted(map(str, gotws)) != sorted(map(str, all_ws)):
+            r.violation('white-space declarations of the imports', '%s: afterwards the stylesheet holds %s, all levels together declare %s' % (site, gotws, all_ws), common.file_line(fn))
+        else:
+            r.ok(site, '%d declarations' % len(ids))
     return r
